@@ -88,6 +88,19 @@ def jobs(tier):
                    'group': '%s/%s' % (impl, 'tree' if kind in F.TREE_KINDS else 'leaf'),
                    'args': dict(fam=fam, kind=kind, impl=impl, sizes=sizes, n=n, variant=var,
                                 level=level)})
+    # thinning spaces: 8 keys built in a scripted order, then every deletion history
+    deep = F.COVER if tier == 'quick' else F.FAMILIES
+    for fam in deep:
+        for impl in F.IMPLS:
+            for kind in F.TREE_KINDS:
+                for order in ('asc', 'desc'):
+                    if tier == 'quick' and (kind == 'TreeSet') != (order == 'desc'):
+                        continue
+                    js.append({'fn': 'job', 'weight': 20 if impl == 'py' else 3,
+                               'group': '%s/thin' % impl,
+                               'args': dict(fam=fam, kind=kind, impl=impl, sizes=(2, 2),
+                                            n=8 if tier == 'quick' else 9, variant='centred',
+                                            level=0 if impl == 'py' else 1, thin=order)})
     return js
 
 
@@ -249,8 +262,8 @@ def range_monitor(grid, level):
     return mon
 
 
-def job(fam, kind, impl, sizes, n, variant, level=0):
-    ex = S.explorer(fam, kind, impl, sizes, n, variant, 'C02')
+def job(fam, kind, impl, sizes, n, variant, level=0, thin=None):
+    ex = S.explorer(fam, kind, impl, sizes, n, variant, 'C02', thin=thin)
     ex.base_case['level'] = level
     ex.state_monitors.append(range_monitor(ex.grid, level if kind in F.TREE_KINDS else 0))
     ex.run()
